@@ -5,11 +5,11 @@ import (
 	"fmt"
 	"math"
 	"math/big"
-	"runtime"
 	"sort"
 	"sync"
 	"time"
 
+	"gitlab.com/aquachain/aquachain/aqua/event"
 	"gitlab.com/aquachain/aquachain/common"
 	"gitlab.com/aquachain/aquachain/core"
 	"gitlab.com/aquachain/aquachain/core/state"
@@ -72,6 +72,7 @@ type universe struct {
 	w      *gen.World
 	tree   *gen.Tree
 	chain  *core.BlockChain
+	tap    *chainTap
 	pool   *core.TxPool
 	signer types.Signer
 	badSig types.Signer
@@ -143,7 +144,8 @@ func newUniverse(c *fw.Ctx, r *fw.Rand, cfg poolCfg) *universe {
 	if cfg.Journal {
 		pc.Journal = fmt.Sprintf("%s/journal-%d.rlp", c.Dir, time.Now().UnixNano())
 	}
-	u.pool = core.NewTxPool(pc, chainCfg, chain)
+	u.tap = &chainTap{BlockChain: chain}
+	u.pool = core.NewTxPool(pc, chainCfg, u.tap)
 	return u
 }
 
@@ -356,40 +358,107 @@ func (u *universe) buildBlock(parent *types.Block, p blockPlan) *gen.Built {
 	return b
 }
 
-// waitHead polls H3 snapshots until the pool works against the state of x
-// (x's unique coinbase has a balance there). It never decides by sleeping: the
-// sleep is only the polling interval; a watchdog makes the wait inconclusive.
-func (u *universe) waitHead(x *types.Block) *snap {
+// chainTap is the chain the pool is given: the real BlockChain, except that
+// the channel the pool subscribes for head events is remembered so that the
+// harness can put sentinels behind the chain's own events.
+type chainTap struct {
+	*core.BlockChain
+	mu sync.Mutex
+	ch chan<- core.ChainHeadEvent
+}
+
+func (t *chainTap) SubscribeChainHeadEvent(ch chan<- core.ChainHeadEvent) event.Subscription {
+	t.mu.Lock()
+	t.ch = ch
+	t.mu.Unlock()
+	return t.BlockChain.SubscribeChainHeadEvent(ch)
+}
+
+// headBarrier returns when the pool's event loop has completely handled every
+// head event the chain posted before the call. InsertChain delivers its
+// ChainHeadEvent into the pool's channel before it returns; the loop is one
+// goroutine that takes the channel in order and ignores events without a block;
+// the channel holds at most headChanCap items. Once headChanCap+1 empty
+// sentinels have been accepted, at most headChanCap of them are still buffered,
+// so the loop has received at least one sentinel, which it only does after it
+// finished the iteration for the real event before it. No clock decides
+// anything; the watchdog only covers a loop that does not take events at all.
+const headChanCap = 10 // core.chainHeadChanSize
+
+func (u *universe) headBarrier() bool {
+	u.tap.mu.Lock()
+	ch := u.tap.ch
+	u.tap.mu.Unlock()
+	if ch == nil {
+		panic("harness: the pool never subscribed to head events")
+	}
+	done := make(chan struct{})
+	go func() {
+		for i := 0; i < headChanCap+1; i++ {
+			ch <- core.ChainHeadEvent{}
+		}
+		close(done)
+	}()
+	select {
+	case <-done:
+		return true
+	case <-time.After(30 * time.Minute):
+		u.c.Inconclusive("pool_loop_takes_no_head_events")
+		return false
+	}
+}
+
+// waitHead is called after the last InsertChain of a step returned, with x the
+// chain's current head. It passes the delivery barrier and takes ONE snapshot:
+// the pool must then work against the state of x (x's unique coinbase has a
+// balance there). ok=false with a snapshot: the pool did not follow (a
+// violation has been recorded); nil snapshot: inconclusive.
+func (u *universe) waitHead(x *types.Block, concurrent bool) (*snap, bool) {
 	if x.Hash() == u.tree.Genesis.Hash() {
-		return u.snapshot()
+		return u.snapshot(), true
+	}
+	if !u.headBarrier() {
+		return nil, false
 	}
 	cb := u.cbOf[x.Hash()]
-	deadline := time.Now().Add(4 * time.Minute)
-	for i := 0; ; i++ {
-		s := u.snapshot(cb)
-		if s.Accounts[cb].StateBalance.Sign() > 0 {
-			led := u.ledger(x)
-			for a, want := range led {
-				got := s.Accounts[a]
-				if got.StateNonce != want.nonce || got.StateBalance.Cmp(want.bal) != 0 {
-					panic(fmt.Sprintf("harness: pool state of %x is (%d,%v), ledger at head %d says (%d,%v)", a, got.StateNonce, got.StateBalance, x.NumberU64(), want.nonce, want.bal))
-				}
+	s := u.snapshot(cb)
+	if s.Accounts[cb].StateBalance.Sign() > 0 {
+		led := u.ledger(x)
+		for a, want := range led {
+			got := s.Accounts[a]
+			if got.StateNonce != want.nonce || got.StateBalance.Cmp(want.bal) != 0 {
+				panic(fmt.Sprintf("harness: pool state of %x is (%d,%v), ledger at head %d says (%d,%v)", a, got.StateNonce, got.StateBalance, x.NumberU64(), want.nonce, want.bal))
 			}
-			if s.CurrentMaxGas != x.GasLimit() {
-				panic("harness: pool gas cap differs from the head's gas limit")
-			}
-			u.head = x
-			return s
 		}
-		if time.Now().After(deadline) {
-			u.c.Inconclusive("pool_did_not_reach_head")
-			return nil
+		if s.CurrentMaxGas != x.GasLimit() {
+			panic("harness: pool gas cap differs from the head's gas limit")
 		}
-		runtime.Gosched()
-		if i > 50 {
-			time.Sleep(100 * time.Microsecond)
+		u.head = x
+		return s, true
+	}
+	old := u.head
+	op := "head_advance"
+	if !u.tree.IsAncestor(old, x) {
+		op = "head_reorg"
+	}
+	if concurrent {
+		op = "concurrent"
+	}
+	cause := "higher"
+	if x.NumberU64() == old.NumberU64() {
+		cause = "equal_height"
+	} else if x.NumberU64() < old.NumberU64() {
+		cause = "lower_height"
+	}
+	oldState := "the state of the previous head"
+	if ocb, ok := u.cbOf[old.Hash()]; ok {
+		if u.snapshot(ocb).Accounts[ocb].StateBalance.Sign() == 0 {
+			oldState = "neither the new nor the previous head's state"
 		}
 	}
+	u.c.Violate("head_not_followed", op, cause, fmt.Sprintf("the chain announced head #%d %x (previous head #%d %x, reorganisation: %v); after the pool's event loop had taken that event and %d later ones it still works against %s (gas cap %d, head's gas limit %d)%s",
+		x.NumberU64(), x.Hash().Bytes()[:4], old.NumberU64(), old.Hash().Bytes()[:4], !u.tree.IsAncestor(old, x), headChanCap+1, oldState, s.CurrentMaxGas, x.GasLimit(), u.recentOps()))
+	return s, false
 }
 
 // branchTxs returns the transactions of the blocks from (exclusive) ancestor to tip.
